@@ -6,6 +6,18 @@ NOTES = ("Every check: (A) rebuilds the Coq development and re-reads Print Assum
 _PENDING = "check not built yet in this session (work in progress; see DESIGN.md section 5 for the plan)"
 NOT_APPLICABLE = {("C%02d" % i): _PENDING for i in range(1, 21)}
 TEXT = {
+ "C13": {
+  "level": "Machine-checked proof (Coq, no axioms) over an entry-level model of log.go/segment.go/util.go (one function per Go method, panics explicit): "
+           "for every operation sequence from a fresh log, every entry size and segment size, the chain of segments stays well formed and every "
+           "operation refines the abstract sequence (append appends or is refused unchanged; RemoveGTE truncates; RemoveLTE drops whole segments up to "
+           "CanLTE and never beyond the index; Reset; reopen); Get/GetN/Prev/Last/Count/Contains agree with the sequence, GetN concatenates across "
+           "segments, and a view's Get/GetN are unchanged by any later appends. The concurrent-reader clause is proved functionally (reads depend only "
+           "on data no append changes); visibility under the Go memory model is outside any Gallina model and is named as such.",
+  "design_ref": "DESIGN.md 4.2, 5 (C13)",
+  "note": "Trusted: Coq kernel + vm_compute; Go harness and state dump; byte-level layout of a segment (offset table arithmetic) is covered by the state "
+          "dump reading the real table, not by a theorem. Not modelled: I/O errors, mmap/munmap, goroutine interleaving.",
+  "technique": "Coq refinement proof (entry-level model -> abstract sequence) + per-step differential correspondence with the real log package",
+ },
  "C18": {
   "level": "Machine-checked proof (Coq, no axioms) that for every value of every message/entry/Node/Config/snapshot label/Replication/Info "
            "and every task response the model decoder returns exactly the encoded value and leaves exactly the trailing bytes, that every "
